@@ -251,7 +251,7 @@ Lemma continue_loop_no_delivery : forall r fuel s s' o x, _continue_backlog_loop
 Proof.
   intros r. induction fuel as [|f IH]; intros s s' o x H; cbn [_continue_backlog_loop] in H; [invpairs; constructor|].
   destruct (exchanges s); [|invpairs; constructor]. destruct (has_exchange r l); [invpairs; constructor|].
-  destruct (alookup Z.eqb r (backlogs s)) as [[|[w m] rest]|]; try (invpairs; repeat constructor).
+  destruct (alookup Z.eqb r (backlogs s)) as [[|[w m] rest]|]; try (invpairs; repeat constructor; fail).
   destruct (_send_initially _ r w (Some m)) as [s1 o1] eqn:S. apply send_initially_no_delivery in S.
   destruct (_continue_backlog_loop f s1 r) as [[s2 o2] x2] eqn:L. apply IH in L. invpairs. apply Forall_app; split; assumption.
 Qed.
@@ -289,12 +289,12 @@ Lemma continue_loop_frame : forall r fuel s s' o x, refuses s r = false -> _cont
 Proof.
   intros r. induction fuel as [|f IH]; intros s s' o x Hr H; cbn [_continue_backlog_loop] in H; [invpairs; repeat split; constructor|].
   destruct (exchanges s); [|invpairs; repeat split; constructor]. destruct (has_exchange r l); [invpairs; repeat split; constructor|].
-  destruct (alookup Z.eqb r (backlogs s)) as [[|[w m] rest]|]; try (invpairs; repeat split; repeat constructor).
+  destruct (alookup Z.eqb r (backlogs s)) as [[|[w m] rest]|]; try (invpairs; repeat split; repeat constructor; fail).
   destruct (_send_initially _ r w (Some m)) as [s1 o1] eqn:S. apply send_initially_frame in S; [|exact Hr].
   destruct S as (S1 & S2 & S3 & S4 & S5). cbn in S1, S2, S3, S4.
   destruct (_continue_backlog_loop f s1 r) as [[s2 o2] x2] eqn:L. apply IH in L; [|unfold refuses in *; rewrite S4; exact Hr].
   destruct L as (L1 & L2 & L3 & L4 & L5).
-  invpairs. rewrite L1, L2, L3, L4, S1, S2, S3, S4. repeat split.
+  invpairs. split; [congruence|]. split; [congruence|]. split; [congruence|]. split; [congruence|].
   apply Forall_app. split; [repeat constructor|exact L5].
 Qed.
 (* an incoming ACK never touches the request table (while the transport accepts datagrams for r) *)
@@ -339,6 +339,7 @@ Proof.
     destruct (add_response _ q w r _) eqn:A. reflexivity.
 Qed.
 
+Ltac nd := solve [exfalso; match goal with N : forall l, no_deliv l -> ~ In _ l |- _ => eapply N; [|eassumption]; eassumption end].
 Lemma deliver_only_matching_lemma : forall s r mcl w s' outs o,
   (w_mtype w = ACK -> refuses s r = false) ->
   dispatch_message s r mcl w = (s', outs) -> In o outs -> is_delivery o = true ->
@@ -356,14 +357,14 @@ Proof.
   { intros l Hl Hi. unfold no_deliv in Hl. rewrite Forall_forall in Hl. apply Hl in Hi. congruence. }
   assert (SI : forall s r w s' o, _send_initially s r w None = (s', o) -> no_deliv o).
   { intros *. apply send_initially_no_delivery. }
-  destruct x1. { invpairs. exfalso. eapply notin; eauto. }
+  destruct x1. { invpairs. nd. }
   destruct ((w_code w =? EMPTY) && (w_mtype w =? CON)).
   { destruct (_send_initially s1 r _ None) as [s2 o2] eqn:S. apply SI in S.
-    invpairs. apply in_app_or in Hin. destruct Hin as [Hi|Hi]; exfalso; eapply notin; eauto. }
+    invpairs. apply in_app_or in Hin. destruct Hin as [Hi|Hi]; nd. }
   destruct ((w_code w =? EMPTY) && ((w_mtype w =? ACK) || (w_mtype w =? RST))).
-  { invpairs. exfalso. eapply notin; eauto. }
+  { invpairs. nd. }
   destruct (is_response (w_code w) && ((w_mtype w =? CON) || (w_mtype w =? NON) || (w_mtype w =? ACK))) eqn:Cond.
-  2: { invpairs. exfalso. eapply notin; eauto. }
+  2: { invpairs. nd. }
   apply andb_prop in Cond. destruct Cond as [Cresp Ctype].
   assert (Hrst : w_mtype w <> RST). { unfold CON, NON, ACK, RST in *. lia. }
   assert (Hog1 : outgoing s1 = outgoing s).
@@ -373,8 +374,8 @@ Proof.
   2: { unfold process_response in H. rewrite Hog1 in H.
        destruct (_send_initially s1 r _ None) as [s3 o3] eqn:S. apply SI in S.
        destruct ((w_mtype w =? CON) && negb mcl); invpairs;
-         repeat (apply in_app_or in Hin; destruct Hin as [Hin|Hin]); try (exfalso; eapply notin; eauto; fail);
-         repeat (destruct Hin as [<-|Hin]; try discriminate); try contradiction. }
+         repeat (apply in_app_or in Hin; destruct Hin as [Hin|Hin]); try (nd);
+         repeat (destruct Hin as [<-|Hin]; try discriminate); try contradiction; try nd. }
   pose proof (process_response_spec s1 r w og Hog1) as PS.
   destruct (matching og (w_token w) r) as [q|] eqn:M.
   - rewrite PS in H.
@@ -383,9 +384,9 @@ Proof.
     assert (Hin2 : In o o2).
     { destruct (w_mtype w =? CON).
       - destruct (_send_initially s2 r _ None) as [s3 o3] eqn:S. apply SI in S.
-        invpairs. apply in_app_or in Hin. destruct Hin as [Hi|Hi]; [exfalso; eapply notin; eauto|].
-        apply in_app_or in Hi. destruct Hi as [Hi|Hi]; [exact Hi|exfalso; eapply notin; eauto].
-      - invpairs. apply in_app_or in Hin. destruct Hin as [Hi|Hi]; [exfalso; eapply notin; eauto|exact Hi]. }
+        invpairs. apply in_app_or in Hin. destruct Hin as [Hi|Hi]; [nd|].
+        apply in_app_or in Hi. destruct Hi as [Hi|Hi]; [exact Hi|nd].
+      - invpairs. apply in_app_or in Hin. destruct Hin as [Hi|Hi]; [nd|exact Hi]. }
     rewrite Forall_forall in A. apply A in Hin2.
     exists og, q. split; [reflexivity|]. split; [exact M|]. split; [|split; [exact Cresp|exact Hrst]].
     destruct o; cbn in Hd; try discriminate; cbn in Hin2.
@@ -394,8 +395,8 @@ Proof.
   - rewrite PS in H.
     destruct (_send_initially s1 r _ None) as [s3 o3] eqn:S. apply SI in S.
     destruct ((w_mtype w =? CON) && negb mcl); invpairs;
-      repeat (apply in_app_or in Hin; destruct Hin as [Hin|Hin]); try (exfalso; eapply notin; eauto; fail);
-      repeat (destruct Hin as [<-|Hin]; try discriminate); try contradiction.
+      repeat (apply in_app_or in Hin; destruct Hin as [Hin|Hin]); try (nd);
+      repeat (destruct Hin as [<-|Hin]; try discriminate); try contradiction; try nd.
 Qed.
 
 (* ------------------------------------------------------------------ replies to responses *)
